@@ -25,6 +25,61 @@ import (
 
 func TestMain(m *testing.M) { pbt.Main(m, "C18") }
 
+// TestAADeepStructuresFirst is the first test of the process (tests run in
+// source order): large containers — B-trees of 5+ levels, deep binary trees, long
+// lists, heaps of 7+ levels — whose every reader starts with the SAME expensive
+// whole-structure reads (String, ToJSON, Values, Keys, a full iterator walk) at
+// the same moment, while every process-wide lazily initialised table is cold.
+func TestAADeepStructuresFirst(t *testing.T) {
+	if !raceEnabled {
+		t.Skip("not built with -race")
+	}
+	for _, kind := range []string{"btree", "redblacktree", "avltree", "treemap", "treeset", "treebidimap", "arraylist", "doublylinkedlist", "linkedhashmap", "binaryheap", "circularbuffer"} {
+		pbt.Run(t, pbt.Target[Case]{Name: "concurrent-deep/" + kind, Checks: 6, Gen: genDeep(kind), Check: checkConcurrent})
+	}
+}
+
+func genDeep(kind string) func(t *rapid.T) Case {
+	return func(t *rapid.T) Case {
+		c := Case{Cfg: refl.GenCfg(t, kind)}
+		if kind == "btree" {
+			c.Cfg.Order = []int{3, 3, 4}[rapid.IntRange(0, 2).Draw(t, "order")]
+		}
+		if kind == "circularbuffer" {
+			c.Cfg.Cap = []int{64, 100}[rapid.IntRange(0, 1).Draw(t, "cap")]
+		}
+		adder := map[string]string{"btree": "Put", "redblacktree": "Put", "avltree": "Put", "treemap": "Put", "treebidimap": "Put", "linkedhashmap": "Put",
+			"treeset": "Add", "arraylist": "Add", "doublylinkedlist": "Add", "binaryheap": "Push", "circularbuffer": "Enqueue"}[kind]
+		n := rapid.IntRange(70, 400).Draw(t, "n")
+		if kind == "binaryheap" {
+			n = rapid.IntRange(70, 140).Draw(t, "nheap")
+		}
+		c.Build = []refl.Step{{M: adder, R: []int{rapid.IntRange(0, 1<<20).Draw(t, "r0"), rapid.IntRange(0, 1<<20).Draw(t, "r1"), 3}, N: n, V: 1}}
+		whole := []string{"String", "ToJSON", "Values", "Keys", "Iterator", "MarshalJSON", "Height", "Size"}
+		var list []refl.Step
+		for _, m := range whole {
+			for _, have := range refl.Methods(c.Cfg) {
+				if have == m {
+					st := refl.Step{M: m, R: []int{1}}
+					if m == "Iterator" {
+						for i := 0; i < 40; i++ {
+							st.It = append(st.It, "Next", "Value")
+						}
+						st.It = append(st.It, "End", "Prev", "Value", "Last", "First")
+					}
+					list = append(list, st)
+				}
+			}
+		}
+		g := rapid.IntRange(3, 8).Draw(t, "goroutines")
+		for i := 0; i < g; i++ {
+			c.Readers = append(c.Readers, list) // every goroutine does the same reads, starting together
+		}
+		c.Rounds = 1
+		return c
+	}
+}
+
 type Case struct {
 	Cfg     refl.Cfg      `json:"cfg"`
 	Build   []refl.Step   `json:"build"`   // mutators building the state
@@ -136,12 +191,6 @@ func genPure(kind string) func(t *rapid.T) Case {
 	}
 }
 
-func TestPurity(t *testing.T) {
-	for _, kind := range refl.Kinds {
-		pbt.Run(t, pbt.Target[Case]{Name: "pure/" + kind, Checks: 200, Gen: genPure(kind), Check: checkPure})
-	}
-}
-
 // ---------------------------------------------------------------------------
 // (b) concurrent readers
 
@@ -149,19 +198,17 @@ func checkConcurrent(c Case) (pbt.Info, error) {
 	var info pbt.Info
 	r := build(c)
 	n := r.Size()
-	// sequential answers first
-	want := make([][]refl.Result, len(c.Readers))
-	for g, list := range c.Readers {
-		for _, s := range list {
-			want[g] = append(want[g], do(r, s))
-		}
-	}
+	// The concurrent phase runs FIRST, on whatever caches and lazily initialised
+	// state are still cold; the sequential answers are computed afterwards on the
+	// same (unmodified) container and compared with what the goroutines saw.
 	f0 := fp.Of(r.Obj)
 	rounds := max(1, c.Rounds)
 	racesBefore := raceErrors()
 	var firstErr error
 	var mu sync.Mutex
+	got := make([][][]refl.Result, rounds)
 	for round := 0; round < rounds; round++ {
+		got[round] = make([][]refl.Result, len(c.Readers))
 		var wg sync.WaitGroup
 		start := make(chan struct{})
 		for g, list := range c.Readers {
@@ -178,20 +225,31 @@ func checkConcurrent(c Case) (pbt.Info, error) {
 					}
 				}()
 				<-start
-				for i, s := range list {
-					got := do(r, s)
-					if !reflect.DeepEqual(got.Vals, want[g][i].Vals) || !reflect.DeepEqual(got.ItLog, want[g][i].ItLog) {
-						mu.Lock()
-						if firstErr == nil {
-							firstErr = fmt.Errorf("%s (n=%d): concurrent %s (goroutine %d, call %d) returned %v %v, sequentially it returns %v %v", c.Cfg.Kind, n, s.M, g, i, got.Vals, got.ItLog, want[g][i].Vals, want[g][i].ItLog)
-						}
-						mu.Unlock()
-					}
+				res := make([]refl.Result, 0, len(list))
+				for _, s := range list {
+					res = append(res, do(r, s))
 				}
+				got[round][g] = res
 			}(g, list)
 		}
 		close(start)
 		wg.Wait()
+	}
+	if firstErr == nil {
+		for g, list := range c.Readers {
+			for i, s := range list {
+				want := do(r, s)
+				for round := 0; round < rounds; round++ {
+					if i >= len(got[round][g]) {
+						continue
+					}
+					gr := got[round][g][i]
+					if !reflect.DeepEqual(gr.Vals, want.Vals) || !reflect.DeepEqual(gr.ItLog, want.ItLog) {
+						firstErr = fmt.Errorf("%s (n=%d): concurrent %s (goroutine %d, call %d, round %d) returned %v %v, sequentially it returns %v %v", c.Cfg.Kind, n, s.M, g, i, round, gr.Vals, gr.ItLog, want.Vals, want.ItLog)
+					}
+				}
+			}
+		}
 	}
 	if firstErr != nil {
 		return info, firstErr
@@ -246,5 +304,13 @@ func TestConcurrentReaders(t *testing.T) {
 	}
 	for _, kind := range refl.Kinds {
 		pbt.Run(t, pbt.Target[Case]{Name: "concurrent/" + kind, Checks: 70, Gen: genConcurrent(kind), Check: checkConcurrent})
+	}
+}
+
+// TestPurity runs after the concurrent test (tests run in source order): state
+// that is initialised once per process must still be cold when the goroutines start.
+func TestPurity(t *testing.T) {
+	for _, kind := range refl.Kinds {
+		pbt.Run(t, pbt.Target[Case]{Name: "pure/" + kind, Checks: 200, Gen: genPure(kind), Check: checkPure})
 	}
 }
